@@ -149,15 +149,12 @@ theorem le_neg_or_le_iff (m x : α) : (x ≤ -m ∨ m ≤ x) ↔ m ≤ |x| := by
 
 /-- `abs (d) < 1 && abs (n) >= max * abs (d)` (Vec3 (Vec4, InfException), checkForZeroScaleInRow; the complement
 of the `return` condition of screenRadiusExc / worldRadiusExc is the `≤ 1` variant `guardGe'`) -/
-def guardGe (tmax n d : α) : Prop := |d| < 1 ∧ tmax * |d| ≤ |n|
+abbrev guardGe (tmax n d : α) : Prop := |d| < 1 ∧ tmax * |d| ≤ |n|
 /-- `!(abs (d) > 1 || abs (n) < max * abs (d))` -/
-def guardGe' (tmax n d : α) : Prop := |d| ≤ 1 ∧ tmax * |d| ≤ |n|
+abbrev guardGe' (tmax n d : α) : Prop := |d| ≤ 1 ∧ tmax * |d| ≤ |n|
 /-- `abs (d) < 1 && abs (n) > max * abs (d)` (all Frustum guards) -/
-def guardGt (tmax n d : α) : Prop := |d| < 1 ∧ tmax * |d| < |n|
+abbrev guardGt (tmax n d : α) : Prop := |d| < 1 ∧ tmax * |d| < |n|
 
-instance (tmax n d : α) : Decidable (guardGe tmax n d) := by unfold guardGe; infer_instance
-instance (tmax n d : α) : Decidable (guardGe' tmax n d) := by unfold guardGe'; infer_instance
-instance (tmax n d : α) : Decidable (guardGt tmax n d) := by unfold guardGt; infer_instance
 
 theorem le_abs_div_iff (tmax n d : α) (hd : d ≠ 0) : tmax ≤ |n / d| ↔ tmax * |d| ≤ |n| := by
   rw [abs_div, le_div_iff₀ (abs_pos.mpr hd)]
